@@ -240,6 +240,17 @@ class ExprChecker(AstVisitor[tuple[ast.expr, Subst]]):
         # When checking against a variable, we have to synthesize
         if isinstance(ty, ExistentialTypeVar):
             expr, syn_ty = self._synthesize(expr, allow_free_vars=False)
+            # The synthesized type could be a generic function. Solving the variable
+            # with it would create a higher-rank type, so we go through
+            # `check_type_against` which looks for an instantiation (and reports a
+            # proper error if there is none).
+            if isinstance(syn_ty, FunctionType) and syn_ty.parametrized:
+                expr, subst, inst = check_type_against(
+                    syn_ty, ty, expr, self.ctx, kind
+                )
+                if inst:
+                    expr = with_loc(expr, TypeApply(value=expr, inst=inst))
+                return with_type(ty.substitute(subst), expr), subst
             return with_type(syn_ty, expr), {ty: syn_ty}
 
         # Otherwise, invoke the visitor
